@@ -12,8 +12,9 @@ Every single reader call runs under signal.alarm(2) inside the workers of a fork
 additionally under a CPU-time timer); a timeout is the result "hang" and the worker goes on with the next case.
 Deviations are attributed to root causes (one stable key each) by symptom and input features, see
 _readers_util.nt_classify / ttl_classify.  Each root cause is reported once, with the plainest reproducer found
-and the tally of its symptoms; at most MAX_FINDINGS findings that no open entry of known_findings.json matches
-are returned (the rest, if any, is listed under "suppressed_findings").  Unlike the pipeline monitor, an
+per symptom class (key = <pid>:<root-cause category>:<symptom class>; a hang always has a key of its own ending
+in ":hang", an exception one ending in ":raise:<Type>"); at most MAX_FINDINGS findings are returned, hang keys first,
+raise keys second, undocumented categories third (the rest, if any, is listed under "suppressed_findings").  Unlike the pipeline monitor, an
 exception of a reader on an in-dialect / valid input IS a deviation here (the statements say what is yielded).
 
     run(pid, tier, seed) -> dict      replay(doc) -> (ok, message)
@@ -26,7 +27,6 @@ import json
 import multiprocessing
 import os
 import random
-import re
 import sys
 import time
 
@@ -40,7 +40,7 @@ except ImportError:                                    # executed as a plain scr
 
 PIDS = ("C06", "C07")
 WORKERS = 12
-MAX_FINDINGS = 10
+MAX_FINDINGS = 20
 CANDIDATES = 3                      # reproducers kept per key until the confirmation pass
 
 SIZES = {
@@ -65,118 +65,91 @@ RULES = {
            "content is unescaped before comparing); a document outside the dialect must raise, or yield what rdflib reads",
 }
 
-# what each root-cause key means (shown in the finding next to the minimal reproducer)
-KEY_DOC = {
-    "C06:lang-tag:reported-as-string":
-        "language-tagged literal reported with datatype xsd:string instead of rdf:langString "
-        "(utils/uri.there_is_arroba_after_last_quotes looks for '%' instead of '@')",
-    "C06:hang:no-space-after-object":
-        "object token whose end is searched with find(' ') (blank node, typed literal, any literal with '^^' in it) is directly "
-        "followed by '.' or a tab: the index runs backwards -> non-termination, or the dot / comment is swallowed into the token "
-        "(wrong label or datatype, RuntimeError, error line)",
-    "C06:datatype:prefix-like-substring-in-lexical-form":
-        "typed literal whose lexical form contains 'xsd:' / 'rdf:' / 'dt:' / 'geo:': decide_literal_type searches the whole token "
-        "and builds the datatype from the text after that substring",
-    "C06:datatype:prefix-like-substring-in-datatype-iri":
-        "typed literal whose datatype IRI contains 'xsd:' / 'rdf:' / 'dt:' / 'geo:' (e.g. urn:x-dt:foo): datatype rebuilt from a "
-        "hard-wired namespace + the rest of the token",
-    "C06:escape:escaped-backslash-then-escaped-quote":
-        "lexical form containing an escaped backslash followed by an escaped quote (\\\\\\\" , i.e. an odd number >= 3 of "
-        "backslashes before a quote): the closing-quote search takes the escaped quote for the end -> 4 tokens, statement dropped "
-        "and counted as error line",
-    "C06:escape:quote-then-caret-caret-in-lexical-form":
-        "lexical form that begins with '^^' (so the OPENING quote is followed by ^^) or contains an escaped quote followed by ^^: "
-        "decide_literal_type takes that '\"^^' for the datatype marker -> wrong datatype or RuntimeError('Unrecognized literal type')",
-    "C06:hang:remainder-of-mis-tokenised-literal":
-        "second non-termination shape: a literal is cut short (escape / '^^' defects) and its remainder is scanned as further "
-        "tokens; a '<' without a later '>' (find('>') == -1 never advances), or a '_' / digit without a later U+0020, loops forever",
-    "C06:hang:blank-node-subject-not-followed-by-space":
-        "third non-termination shape: blank-node subject followed by a tab swallows the line up to a blank inside the literal; the "
-        "rest of the literal is scanned as tokens and a digit / '_' without a later U+0020 loops forever",
-    "C06:hang:trailing-comment-scanned-as-literal":
-        "the literal scanner searches the whole rest of the line, comment included: '%', '^^' or '\"' inside a trailing comment "
-        "switch the branch / move the closing quote -> non-termination, RuntimeError, wrong datatype or content",
-    "C06:tokenizer:caret-caret-then-space-inside-lexical-form":
-        "lexical form containing '^^' and a blank later on: the token is ended at that blank (first '^^' of the line, then first "
-        "U+0020) -> statement dropped, RuntimeError, or truncated content with wrong datatype",
-    "C06:separator:blank-node-subject-not-followed-by-space":
-        "blank-node subject followed by a tab: its token runs on to the next U+0020 -> statement dropped and counted as error line",
-    "C06:comment-line:not-recognised":
-        "comment lines are tokenised like statements: counted in error_triples, and a comment that holds three <..> terms is yielded "
-        "as a triple",
-    "C06:content:truncated-at-escaped-quote":
-        "literal content is cut at the first escaped quote (utils/uri.parse_literal uses find('\"', 1)); datatype and kinds are right",
-    "C07:line-final-token:last-char-dropped":
-        "a prefixed name, 'a', blank node, integer or typed literal that ends its line loses its last character "
-        "(_find_next_blank returns len-1): wrong IRI / label / number, or an exception further on",
-    "C07:literal-at-eol:IndexError":
-        "closing quote of a plain literal as last character of its line: _find_next_quoted_literal_ending reads one past the end",
-    "C07:lang-tag:rejected-as-malformed-literal":
-        "language-tagged literal: the character after the closing quote is neither blank nor '^' -> ValueError('Malformed literal?')",
-    "C07:datatype:custom-prefix-not-expanded":
-        "datatype written with a declared prefix other than xsd/rdf/dt/geo: decide_literal_type ignores the prefix table -> RuntimeError",
-    "C07:base:fragment-or-path-reference-mis-resolved":
-        "<#frag> and </path> under @base: the leading character is dropped and the rest appended to the base "
-        "(<#f> -> base + 'f', </p> -> base + 'p') instead of RFC 3986 resolution",
-    "C07:base:non-http-absolute-iri-treated-as-relative":
-        "with @base in force every <IRI> not starting with 'http' (e.g. <urn:ex:a>) gets the base prepended",
-    "C07:comment:literal-bounds-not-found":
-        "comment stripping locates the first literal with the regex [^\\\\]\" : it misses an opening quote in column 0, an empty "
-        "literal and a closing quote after an escaped backslash -> IndexError, or text inside the literal cut as comment",
-    "C07:comment:hash-inside-later-literal-cut-as-comment":
-        "' #' inside the second or later literal of a line is taken for a comment start (only the first literal is protected)",
-    "C07:trailing-semicolon:triple-yielded-twice":
-        "'; .' (legal Turtle): both ';' and '.' yield the current triple, so the last triple of the statement comes twice",
-    "C07:literal-content:truncated-at-escaped-quote":
-        "literal content is cut at the first escaped quote (utils/uri.parse_literal); datatype is right",
-    "C07:outside-dialect:yields-wrong-triples:no-blank-before-punctuation":
-        "'ex:o.' / 'ex:a,ex:b' / '42.': the punctuation is swallowed into the token: triples are lost or fused silently instead of an error",
-    "C07:outside-dialect:yields-wrong-triples:statement-on-directive-line":
-        "a statement after '@prefix ... .' on the same line is ignored silently",
-}
-
-PRIMARY = {
-    "C06": ["C06:lang-tag:reported-as-string", "C06:hang:no-space-after-object", "C06:datatype:prefix-like-substring-in-lexical-form",
-            "C06:datatype:prefix-like-substring-in-datatype-iri", "C06:escape:escaped-backslash-then-escaped-quote",
-            "C06:escape:quote-then-caret-caret-in-lexical-form"],
-    "C07": ["C07:line-final-token:last-char-dropped", "C07:literal-at-eol:IndexError", "C07:lang-tag:rejected-as-malformed-literal"],
-}
-SECONDARY = {
-    "C06": ["C06:hang:remainder-of-mis-tokenised-literal", "C06:hang:trailing-comment-scanned-as-literal",
-            "C06:hang:blank-node-subject-not-followed-by-space",
-            "C06:tokenizer:caret-caret-then-space-inside-lexical-form", "C06:separator:blank-node-subject-not-followed-by-space",
-            "C06:comment-line:not-recognised", "C06:content:truncated-at-escaped-quote"],
-    "C07": ["C07:outside-dialect:yields-wrong-triples:no-blank-before-punctuation",
-            "C07:outside-dialect:yields-wrong-triples:statement-on-directive-line",
-            "C07:datatype:custom-prefix-not-expanded", "C07:base:fragment-or-path-reference-mis-resolved",
-            "C07:base:non-http-absolute-iri-treated-as-relative", "C07:comment:literal-bounds-not-found",
-            "C07:comment:hash-inside-later-literal-cut-as-comment", "C07:trailing-semicolon:triple-yielded-twice",
-            "C07:literal-content:truncated-at-escaped-quote"],
-}
+# A finding key is "<pid>:<root-cause category>:<symptom class>".  Symptom classes: hang | raise:<ExceptionType> |
+# statement-dropped / missing-triple | extra-triple | wrong-node | wrong-content | wrong-datatype | error-count |
+# wrong-triples (outside the dialect).  A non-termination ALWAYS has a key of its own ending in ":hang", an exception
+# one ending in ":raise:<ExceptionType>"; one root cause may therefore show up under two or three keys.
+# What each root-cause category means (shown in the finding next to the plainest reproducer); the order of this
+# table is the order of the findings within one symptom rank.
+CAUSE_DOC = collections.OrderedDict([
+    # ---- C06
+    ("no-space-after-object",
+     "object token that ends at the next blank (blank node, typed / language-tagged literal, literal with '^^' in it) directly "
+     "followed by the final dot or a tab"),
+    ("dot-glued-to-object-before-comment",
+     "the final dot touches a blank-node / typed / language-tagged object and a comment follows: only a LINE-final dot is taken off "
+     "the token, so here the dot stays part of the label / datatype IRI / language tag"),
+    ("blank-node-subject-followed-by-tab", "blank-node subject followed by a tab instead of a blank"),
+    ("trailing-comment-scanned-as-literal",
+     "the literal scanner works on the whole rest of the line, trailing comment included: a '\"', '^^' or '@' in the comment moves "
+     "the 'last quote' / switches the typed branch"),
+    ("caret-caret-then-space-inside-lexical-form",
+     "lexical form containing '^^' and a blank later on: the token is taken to start its datatype at the first '^^' of the line "
+     "and ends at the next blank, inside the literal"),
+    ("escaped-backslash-then-escaped-quote",
+     "plain literal containing an escaped backslash followed by an escaped quote (an odd number >= 3 of backslashes before a "
+     "quote): the closing-quote search takes the escaped quote for the end of the literal"),
+    ("quote-then-caret-caret-in-lexical-form",
+     "lexical form that begins with '^^' (the OPENING quote is then followed by ^^) or contains an escaped quote followed by ^^: "
+     "utils/uri.decide_literal_type takes that '\"^^' for the datatype marker"),
+    ("caret-caret-in-plain-literal", "plain or language-tagged literal with '^^' somewhere in its lexical form (typed branch of the tokenizer)"),
+    ("language-tag-not-detected", "language-tagged literal reported as xsd:string"),
+    ("prefix-like-substring-in-lexical-form",
+     "typed literal whose lexical form contains 'xsd:' / 'rdf:' / 'dt:' / 'geo:': decide_literal_type searches the whole token "
+     "and builds the datatype from the text after that substring"),
+    ("prefix-like-substring-in-datatype-iri",
+     "typed literal whose datatype IRI contains 'xsd:' / 'rdf:' / 'dt:' / 'geo:' (e.g. urn:x-dt:foo): datatype rebuilt from a "
+     "hard-wired namespace + the rest of the token"),
+    ("comment-line-not-recognised",
+     "comment lines are tokenised like statements: counted in error_triples, and a comment holding three <..> terms is yielded as a triple"),
+    ("document-differs-from-its-lines", "a document does not behave like its lines read one by one"),
+    ("content-truncated-at-escaped-quote",
+     "literal content is cut at the first escaped quote (utils/uri.parse_literal uses find('\"', 1)); kinds and datatype are right"),
+    # ---- C07
+    ("line-final-token", "a prefixed name, 'a', blank node, integer or typed literal that ends its line"),
+    ("literal-closing-quote-at-end-of-line", "closing quote of a plain literal as last character of its line"),
+    ("language-tag", "language-tagged literal"),
+    ("custom-prefix-datatype",
+     "datatype written with a declared prefix other than xsd/rdf/dt/geo: decide_literal_type ignores the prefix table"),
+    ("comment-literal-bounds-not-found",
+     "comment stripping locates the first literal of a line with the regex [^\\\\]\" : it misses an opening quote in column 0, an "
+     "empty literal and a closing quote after an escaped backslash -> IndexError, or text inside the literal cut as comment"),
+    ("comment-hash-inside-later-literal",
+     "' #' inside the second or later literal of a line is taken for a comment start (only the first literal is protected)"),
+    ("outside-dialect-no-blank-before-punctuation",
+     "'ex:o.' / 'ex:a,ex:b' / '42.': the punctuation is swallowed into the token; triples are lost or fused silently instead of an error"),
+    ("outside-dialect-statement-on-directive-line", "a statement after '@prefix ... .' on the same line is ignored silently"),
+    ("base-fragment-or-path-reference",
+     "<#frag> and </path> under @base: the leading character is dropped and the rest appended to the base "
+     "(<#f> -> base + 'f', </p> -> base + 'p') instead of RFC 3986 resolution"),
+    ("base-non-http-absolute-iri", "with @base in force every <IRI> not starting with 'http' (e.g. <urn:ex:a>) gets the base prepended"),
+    ("trailing-semicolon", "'; .' (legal Turtle): both ';' and '.' yield the current triple, so the last triple of the statement comes twice"),
+])
+_CAUSE_ORDER = list(CAUSE_DOC)
 
 
-def _known_patterns(pid):
-    """bounded_key regexes of the open known findings of `pid` (/verif/known_findings.json, read only).  A finding
-    matched by one of them is still returned (./check prints it as KNOWN-FINDING) but does not use up one of the
-    MAX_FINDINGS places, so that carving out ten defects does not hide the eleventh for ever."""
-    path = os.path.join(U.VERIF, "known_findings.json")
-    try:
-        with open(path) as fh:
-            known = json.load(fh).get("findings", [])
-    except (OSError, ValueError):
-        return []
-    return [k["bounded_key"] for k in known
-            if k.get("property") == pid and k.get("status") == "open" and k.get("bounded_key")]
+def make_key(pid, category, symptom):
+    return "%s:%s:%s" % (pid, category, symptom)
+
+
+def split_key(key):
+    pid, category, symptom = key.split(":", 2)
+    return pid, category, symptom
 
 
 def _key_rank(pid, key):
-    """named defects first, then keys this module has no description for (possibly new defects: never squeezed
-    out by the cap of MAX_FINDINGS), then the other documented ones."""
-    if key in PRIMARY[pid]:
-        return (0, PRIMARY[pid].index(key))
-    if key in SECONDARY[pid]:
-        return (2, SECONDARY[pid].index(key))
-    return (1, 0)
+    """hang keys first, raise keys second, then categories this module has no description for ('other' and
+    the outside-dialect constructs that used to raise: possibly new defects), then the documented rest."""
+    _, category, symptom = split_key(key)
+    known = category in CAUSE_DOC
+    order = _CAUSE_ORDER.index(category) if known else -1
+    if symptom == "hang":
+        return (0, order, key)
+    if symptom.startswith("raise:"):
+        return (1, order, key)
+    if not known:
+        return (2, order, key)
+    return (3, order, key)
 
 
 # ================================================================================================
@@ -252,11 +225,9 @@ def _jsonable_outcome(outcome):
     return {"status": "raise", "exception": outcome[1], "where": outcome[2], "message": outcome[3]}
 
 
-def _symptom_kind(outcome, sym):
-    if outcome[0] != "ok":
-        return outcome[0] if outcome[0] == "hang" else "raise"
-    first = sym.split(" ")[0]
-    return "count" if first.isdigit() else first
+_PLAIN_CACHE = {}                              # per process: layout variant of a line -> outcome (counterfactuals of nt_attribute)
+_HANGS_CONFIRMED = collections.Counter()      # per worker process: root-cause category -> hangs seen under the plain 2 s alarm
+TRUST_AFTER = 2                                # after that many, a CPU-timer expiry of the same category is taken as a hang at once
 
 
 def _nt_case(x):
@@ -264,8 +235,36 @@ def _nt_case(x):
     return (tuple(x[0]), x[1], tuple(x[2])) + tuple(x[3:])
 
 
+_WALL_ONLY = [False]                           # confirmation / replay: no CPU timer at all
+
+
+def _read_line(case):
+    """One N-Triples line through the reader.  The CPU timer expiring is a hang only once the plain wall-clock alarm
+    has confirmed TRUST_AFTER hangs of the same root-cause category in this worker (a regression can bring thousands
+    of hanging lines; two seconds each would not fit the budget); until then the 2 s alarm alone decides."""
+    line = R.nt_line(case)
+    if _WALL_ONLY[0]:
+        return R.read_nt(line, cpu=None)
+    outcome = R.read_nt(line)
+    if outcome[0] == "hang":
+        category = R.nt_classify(case, outcome)[0][0]
+        if _HANGS_CONFIRMED[category] < TRUST_AFTER:
+            outcome = R.read_nt(line, cpu=None)
+            if outcome[0] == "hang":
+                _HANGS_CONFIRMED[category] += 1
+    return outcome
+
+
+def _read_variant(variant):
+    if variant not in _PLAIN_CACHE:
+        if len(_PLAIN_CACHE) > 50000:
+            _PLAIN_CACHE.clear()
+        _PLAIN_CACHE[variant] = _read_line(variant)
+    return _PLAIN_CACHE[variant]
+
+
 def eval_unit(unit, confirm=False):
-    """-> {"evaluated": 0/1, "dropped": reason or None, "deviations": [(key, symptom kind, record)]}.
+    """-> {"evaluated": 0/1, "dropped": reason or None, "deviations": [(key, record)]}.
     confirm=True: the plain 2 s wall-clock alarm only (no CPU timer)."""
     kind = unit[0]
     res = {"evaluated": 0, "dropped": None, "deviations": [], "note": None, "nontrivial": 0}
@@ -278,19 +277,17 @@ def eval_unit(unit, confirm=False):
             return res
         if g is not None:
             res["note"] = "rdflib-unquote-quirk"
+        _WALL_ONLY[0] = bool(confirm)
         if confirm:
-            outcome = R.read_nt(line, cpu=None)
-        else:
-            outcome = R.read_nt(line)
-            if outcome[0] == "hang" and not R.nt_known_shape(case):
-                outcome = R.read_nt(line, cpu=None)            # unknown shape: only the wall-clock alarm decides
+            _PLAIN_CACHE.clear()
+        outcome = _read_line(case)
         res["evaluated"] = 1
         res["nontrivial"] = 1 if (case[2][0] != "I" or case[3:] != R.DEFAULT_LAYOUT) else 0
         exp = R.nt_expected(case)
-        for (key, sym) in R.nt_classify(case, outcome):
+        for (category, symptom, text) in R.nt_attribute(case, outcome, _read_variant):
             rec = {"pid": "C06", "kind": "line", "case": list(case), "text": line, "expected": {"triples": [exp], "error_triples": 0},
-                   "observed": _jsonable_outcome(outcome), "symptom": sym}
-            res["deviations"].append((key, _symptom_kind(outcome, sym), rec))
+                   "observed": _jsonable_outcome(outcome), "symptom": text}
+            res["deviations"].append((make_key("C06", category, symptom), rec))
         res["sample"] = {"line": line, "expected": exp, "observed": _jsonable_outcome(outcome)}
         return res
     if kind == "ntdoc":
@@ -307,9 +304,9 @@ def eval_unit(unit, confirm=False):
             return res
         res["evaluated"] = 1
         res["nontrivial"] = 1
-        for (key, sym) in devs:
-            rec = {"pid": "C06", "kind": "ntdoc", "case": [list(i) for i in unit[1]], "text": doc, "symptom": sym}
-            res["deviations"].append((key, "document", rec))
+        for (category, symptom, text) in devs:
+            rec = {"pid": "C06", "kind": "ntdoc", "case": [list(i) for i in unit[1]], "text": doc, "symptom": text}
+            res["deviations"].append((make_key("C06", category, symptom), rec))
         return res
     if kind == "ttl":
         case = unit[1]
@@ -325,10 +322,10 @@ def eval_unit(unit, confirm=False):
         outcome = R.read_ttl(text)
         res["evaluated"] = 1
         res["nontrivial"] = 1
-        for (key, sym) in R.ttl_classify(case, outcome, exp):
+        for (category, symptom, descr) in R.ttl_classify(case, outcome, exp):
             rec = {"pid": "C07", "kind": "ttl", "case": case, "text": text, "expected": exp,
-                   "observed": _jsonable_outcome(outcome), "symptom": sym}
-            res["deviations"].append((key, _symptom_kind(outcome, sym), rec))
+                   "observed": _jsonable_outcome(outcome), "symptom": descr}
+            res["deviations"].append((make_key("C07", category, symptom), rec))
         res["sample"] = {"document": text, "expected": exp, "observed": _jsonable_outcome(outcome)}
         return res
     if kind == "outside":
@@ -344,12 +341,12 @@ def eval_unit(unit, confirm=False):
                % (ref[1],), "observed": _jsonable_outcome(outcome)}
         if outcome[0] == "hang":
             rec["symptom"] = "hang"
-            res["deviations"].append(("C07:hang:outside-dialect:" + construct, "hang", rec))
+            res["deviations"].append((make_key("C07", "outside-dialect-" + construct, "hang"), rec))
         elif outcome[0] == "ok":
             got = R.ttl_norm_rows(outcome[1])
             if not (R.same_graph(ref[1], got) and len(got) == len(ref[1])):
                 rec["symptom"] = "no exception; %d triple(s) yielded, rdflib reads %d" % (len(got), len(ref[1]))
-                res["deviations"].append(("C07:outside-dialect:yields-wrong-triples:" + construct, "wrong-triples", rec))
+                res["deviations"].append((make_key("C07", "outside-dialect-" + construct, "wrong-triples"), rec))
             else:
                 res["note"] = "outside-dialect-read-correctly"
         else:
@@ -358,14 +355,14 @@ def eval_unit(unit, confirm=False):
     raise ValueError("unknown work unit %r" % (kind,))
 
 
-def _rank(key, skind, rec):
-    prefer_hang = key.startswith("C06:hang:") or key.startswith("C07:hang:")
+def _rank(rec):
+    """plainest reproducer first."""
     complexity = (0, 0)
     if rec["kind"] == "line":
         complexity = R.nt_complexity(_nt_case(rec["case"]))
     elif rec["kind"] == "ttl":
         complexity = R.ttl_complexity(rec["case"])
-    return (0 if (skind == "hang") == prefer_hang else 1, complexity, len(rec["text"]), rec["text"])
+    return (complexity, len(rec["text"]), rec["text"])
 
 
 def _init_worker():
@@ -398,10 +395,10 @@ def _work(chunk):
             out["notes"][r["note"]] += 1
         if r.get("sample") is not None and len(out["samples"]) < 1:
             out["samples"].append(r["sample"])
-        for (key, skind, rec) in r["deviations"]:
-            out["counts"][(key, skind)] += 1
+        for (key, rec) in r["deviations"]:
+            out["counts"][key] += 1
             lst = out["examples"].setdefault(key, [])
-            lst.append((_rank(key, skind, rec), skind, rec))
+            lst.append((_rank(rec), rec))
             lst.sort(key=lambda x: x[0])
             del lst[CANDIDATES:]
     return out
@@ -414,9 +411,9 @@ def _confirm_work(item):
         r = eval_unit(unit, confirm=True)
     except BaseException as exc:
         return key, rec, False, "confirmation failed: %r" % (exc,)
-    for (k, skind, rec2) in r["deviations"]:
+    for (k, rec2) in r["deviations"]:
         if k == key:
-            return key, rec2, True, skind
+            return key, rec2, True, ""
     return key, rec, False, "not reproduced under the %d s wall-clock alarm: %r" % (R.WALL_SECONDS, [d[0] for d in r["deviations"]])
 
 
@@ -465,8 +462,8 @@ def run(pid, tier="quick", seed=0):
                 cur.sort(key=lambda x: x[0])
                 del cur[CANDIDATES:]
         # confirmation pass: every reproducer that will be reported is run again under the plain wall-clock alarm
-        keys = sorted(examples, key=lambda k: (_key_rank(pid, k), k))
-        todo = [(k, rec) for k in keys for (_, _, rec) in examples[k]]
+        keys = sorted(examples, key=lambda k: _key_rank(pid, k))
+        todo = [(k, rec) for k in keys for (_, rec) in examples[k]]
         confirmed, unconfirmed = {}, []
         for (key, rec, ok, info) in pool.imap(_confirm_work, todo, chunksize=1):
             if ok:
@@ -478,19 +475,13 @@ def run(pid, tier="quick", seed=0):
         pool.join()
     ordered = [k for k in keys if k in confirmed]
     findings, suppressed = [], []
-    known_patterns = _known_patterns(pid)
-    n_new = 0
     for key in ordered:
-        rec, skind = confirmed[key]
-        sym = dict((sk, n) for (k, sk), n in counts.items() if k == key)
-        what = "%s | symptoms over %d deviating case(s): %s | this reproducer: %s" % (
-            KEY_DOC.get(key, "deviation without a documented root cause"), sum(sym.values()),
-            ", ".join("%s x%d" % kv for kv in sorted(sym.items())), rec.get("symptom"))
-        f = {"key": key, "what": what, "input": U.jsonable(rec), "occurrences": sum(sym.values())}
-        if any(re.search(pat, key) for pat in known_patterns):
-            findings.append(f)                           # carved out in known_findings.json: outside the cap
-        elif n_new < MAX_FINDINGS:
-            n_new += 1
+        rec, _ = confirmed[key]
+        _, category, symptom = split_key(key)
+        what = "%s -> %s | %d deviating case(s) with this root cause and symptom class | this reproducer: %s" % (
+            CAUSE_DOC.get(category, "deviation without a documented root cause"), symptom, counts[key], rec.get("symptom"))
+        f = {"key": key, "what": what, "input": U.jsonable(rec), "occurrences": counts[key]}
+        if len(findings) < MAX_FINDINGS:
             findings.append(f)
         else:
             suppressed.append({"key": key, "what": what, "text": rec["text"]})
@@ -529,7 +520,7 @@ def run(pid, tier="quick", seed=0):
             "rule": RULES[pid], "bounds": bounds,
             "samples": U.jsonable(samples[::step][:3]),
             "dropped_by_referee": dict(dropped), "notes": dict(notes),
-            "deviating_cases_by_key_and_symptom": dict(("%s [%s]" % k, n) for k, n in sorted(counts.items())),
+            "deviating_cases_by_key": dict(sorted(counts.items())),
             "findings": findings, "suppressed_findings": suppressed, "unconfirmed": unconfirmed[:10],
             "undecided": undecided, "distinct_finding_keys": len(ordered), "wall_s": round(time.time() - t0, 2)}
 
@@ -548,10 +539,10 @@ def replay(doc):
         return True, "not reproduced: the referee drops the case (%s)" % r["dropped"][:200]
     same = [d for d in r["deviations"] if d[0] == key]
     if same:
-        return False, "reproduced %s: %s on %r" % (key, same[0][2].get("symptom"), rec.get("text"))
+        return False, "reproduced %s: %s on %r" % (key, same[0][1].get("symptom"), rec.get("text"))
     if r["deviations"]:
         d = r["deviations"][0]
-        return False, "reproduced with a different key %s (recorded %s): %s" % (d[0], key, d[2].get("symptom"))
+        return False, "reproduced with a different key %s (recorded %s): %s" % (d[0], key, d[1].get("symptom"))
     return True, "not reproduced on this tree: the reader agrees with the oracle on %r" % (rec.get("text"),)
 
 
@@ -587,6 +578,12 @@ def _mutants():
             return x
         return patch(nt, "tune_token", bad)
 
+    def token_end_search_runs_backwards():
+        # the defect of the original tree: end of an unspaced token = find(" ") - 1, also when there is no blank left
+        def bad(self, target_str, first_index):
+            return target_str[first_index:].find(" ") + first_index - 1
+        return patch(nt.NtTriplesYielder, "_look_for_last_index_of_unspaced_token", bad)
+
     def state_machine_keeps_waiting_for_object():
         old = ttl.BigTtlTriplesYielder._assing_tmp_element_and_promote_state
 
@@ -617,6 +614,7 @@ def _mutants():
     return [
         ("C06", "NtTriplesYielder._look_for_last_index_of_uri_token off by one", uri_token_off_by_one),
         ("C06", "tune_token labels every literal xsd:string", every_literal_a_string),
+        ("C06", "token end = find(' ') - 1 (non-termination must come back under keys ending in :hang)", token_end_search_runs_backwards, ":hang"),
         ("C07", "_assing_tmp_element_and_promote_state: predicate after ';' taken for the object", state_machine_keeps_waiting_for_object),
         ("C07", "',' handled like ';' in the statement state machine", comma_resets_to_predicate),
     ]
@@ -626,7 +624,9 @@ def _selftest(verbose=True):
     ok = True
     t00 = time.time()
     baseline = {}
-    for pid, desc, patch in _mutants():
+    for mutant in _mutants():
+        pid, desc, patch = mutant[:3]
+        must_end = mutant[3] if len(mutant) > 3 else ""
         t0 = time.time()
         if pid not in baseline:                        # finding keys of the unpatched tree at the same size
             res0 = run(pid, "selftest", 0)
@@ -637,8 +637,11 @@ def _selftest(verbose=True):
         finally:
             undo()
         keys = [f["key"] for f in res["findings"]]
-        new = [k for k in keys if k not in baseline[pid]]
+        new = [k for k in keys if k not in baseline[pid] and k.endswith(must_end)]
         hit = bool(new)
+        if must_end == ":hang":                       # and no hang may hide under a key of another symptom class
+            hit = hit and not any(f["input"].get("observed", {}).get("status") == "hang" and not f["key"].endswith(":hang")
+                                  for f in res["findings"])
         ok = ok and hit
         if verbose:
             print("%-4s %-4s mutant: %-84s -> %d new finding key(s) %s  [%d cases, %.1fs]"
